@@ -154,7 +154,11 @@ func zzW(err error) {
 // (wallet.Create hard-wires the slow defaults), opens it with the real Open,
 // and attaches the chain model whose best chain has n blocks from base.
 func zzNewWalletWorld(base int32, n int) *zzWalletWorld {
-	ww := &zzWalletWorld{db: memdb.New(), params: &chaincfg.SimNetParams}
+	return zzNewWalletWorldWith(&chaincfg.SimNetParams, base, n)
+}
+
+func zzNewWalletWorldWith(params *chaincfg.Params, base int32, n int) *zzWalletWorld {
+	ww := &zzWalletWorld{db: memdb.New(), params: params}
 	root, err := hdkeychain.NewMaster(zzWSeed, ww.params)
 	zzW(err)
 	zzW(walletdb.Update(ww.db, func(tx walletdb.ReadWriteTx) error {
